@@ -196,7 +196,7 @@ func (s Server) LeafSelectionQuery(ctx context.Context, req *admin.LeafSelection
 
 	groups := make([]string, 0)
 	if md := metautils.ExtractIncoming(ctx); md != nil && md.Get("name") != "" {
-		groups = append(groups, strings.Split(md.Get("groups"), ";")...)
+		groups = append(groups, utils.CallerGroups(md)...)
 		log.Debugf("gNMI LeafSelectionQuery() called by '%s (%s)'. Groups %v. Token %s",
 			md.Get("name"), md.Get("email"), groups, md.Get("at_hash"))
 	}
